@@ -305,6 +305,9 @@ def _mark_conv(cases):
         for sub in c.get("subs", []):
             walk(sub, k)
     for k, c in enumerate(cases):
+        # args[0] is whatever the shell passes: a third of the runs get something other than the root's name
+        if c.get("op") == "run" and "argv0" not in c and k % 3 == 1:
+            c["argv0"] = ["/usr/local/bin/prog", "./a.out", "", "other name", "-h", "--"][(k // 3) % 6]
         if "root" in c:
             walk(c["root"], k % 5)
         elif "decls" in c:
